@@ -124,3 +124,62 @@ def grammar_case(rng):
                   canon=(lambda s: "ERR" if s.startswith("ERR") else gram.canon_line_files(lexfiles=(1,))(s)))]
     return Case("cli-src:%s:%s" % (F, gtype), {"src_format": F, "src_opts": opts, "text": text, "dest": dest, "err": err[-300:] if rc else ""},
                 lines, nontrivial=True)
+
+
+def spell_words(rng, opts):
+    """the reader options as WORDS of `--src-opts`, in the spellings `misc.options_dict` and the readers accept: values on
+    flags (presence counts, `gf_split:0` is ON), repeated keys (the last one decides), all-digit values, unknown keys,
+    blanks around a word with a colon"""
+    words = []
+    for k in sorted(opts):
+        v = opts[k]
+        if v is True:
+            w = rng.choice([k, k, k + ":1", k + ":0", k + ":yes", k + ":"])
+        elif k == "brackets_firstid":
+            w = "%s:%s" % (k, rng.choice(["%d", "%d", "0%d", "00%d"]) % v)
+        else:
+            w = "%s:%s" % (k, v)
+            if rng.random() < 0.3:
+                words.append("%s:%s" % (k, rng.choice(["-", "#", "=", "::"])))     # overwritten by the later word
+        if ":" in w and rng.random() < 0.15:
+            w = rng.choice([" " + w, w + " ", "\t" + w])
+        words.append(w)
+    rng.shuffle(words)
+    # keep a repeated key's LAST word last
+    if 'gf_separator' in opts:
+        last = "gf_separator:%s" % opts['gf_separator']
+        words = [w for w in words if w.strip() != last] + [last]
+    for _ in range(rng.choice([0, 0, 1, 2])):
+        words.insert(rng.randint(0, len(words)), rng.choice(["quiet", "foo", "foo:bar", "gf:1", "quiet:0", "x:7"]))
+    return words
+
+
+def words_case(rng):
+    F, ts, text, opts, srcarg = make_source(rng)
+    if rng.random() < 0.5 and not opts:
+        opts = reader_opts(rng, F)
+        opts.pop('brackets_emptypos', None)
+    Fcli = F
+    flip = rng.random()
+    if F == "discobrackets" and flip < 0.5:
+        # the bracket format with the option `disco` is the discobracket format
+        Fcli = "brackets"
+        opts = dict(opts, disco=True)
+    words = spell_words(rng, opts)
+    if F == "brackets" and flip < 0.3:
+        words.append(rng.choice(["disco:0", "disco:"]))          # present but falsy: plain brackets
+    elif Fcli == "discobrackets" and flip > 0.8:
+        words.append("disco:0")                                  # the format sets it anyway
+    wenc = ",".join(proto.enc_s(w) for w in words)
+    lines = []
+    with cli.Scratch() as sc:
+        src = sc.write("src." + F, text)
+        argv = ["--src-format", Fcli] + ((["--src-opts"] + words) if words else [])
+        rc, out, err = cli.run_cli(["treeanalysis", src, "SentenceCount"] + argv)
+        m = re.search(r"(\d+) sentences", out)
+        got = m.group(1) if (rc == 0 and m) else "ERR"
+        lines.append(Line("corr", "analysis_words", ["SentenceCount", Fcli, wenc, srcarg], got, canon=canon_err))
+        rc, _, err2 = cli.run_cli(["transform", src, sc.path("dest"), "--dest-format", "export"] + argv)
+        got = proto.enc_s(sc.read("dest")) if rc == 0 else "ERR"
+        lines.append(Line("corr", "convert_words", [Fcli, wenc, "export", "-", "n", srcarg], got, canon=canon_err))
+    return Case("cli-words:" + Fcli, {"src_format": Fcli, "words": words, "text": text, "err": (err + err2)[-300:]}, lines, nontrivial=True)
